@@ -6,7 +6,7 @@ CONSTANTS
   MaxDepth = 2
   MinKeep = 0
   MaxBlocks = 7
-  Acts = {"StartDuringReorg", "Shrink"}
+  Acts = {"StartDuringReorg", "Shrink", "Reconnect"}
   MaxHist = 40
   FullHist = FALSE
 INIT Init
